@@ -50,6 +50,8 @@ type SOp struct {
 	Retain   int64 `json:"retain,omitempty"`
 	// a graceful restart: Close, then New on the same directory
 	IsRestart bool `json:"is_restart,omitempty"`
+	// evict the whole dimensions cache to disk (VerifEvict); the next use of a dimension reloads it
+	IsEvict bool `json:"is_evict,omitempty"`
 }
 
 type StoreIn struct {
@@ -89,8 +91,8 @@ func strList(ss []string) string {
 
 func runDim(in *DimIn) lib.Result {
 	dims := make([]*dimension.Dimension, len(in.Ops))
-	var opsC, keysC []string
-	maxLen, dels := 0, 0
+	var opsC, keysC, rereadC []string
+	maxLen, dels, maxKey := 0, 0, 0
 	for i, ops := range in.Ops {
 		d := dimension.New()
 		var oc []string
@@ -108,6 +110,18 @@ func runDim(in *DimIn) lib.Result {
 		opsC = append(opsC, lib.List(oc))
 		ks := d.VerifKeys()
 		keysC = append(keysC, keyList(ks))
+		for _, k := range ks {
+			if len(k) > maxKey {
+				maxKey = len(k)
+			}
+		}
+		rr := "None"
+		if b, err := d.Bytes(); err == nil {
+			if d2, err := dimension.FromBytes(b); err == nil && d2 != nil {
+				rr = lib.Some(keyList(d2.VerifKeys()))
+			}
+		}
+		rereadC = append(rereadC, rr)
 		if len(ks) > maxLen {
 			maxLen = len(ks)
 		}
@@ -138,10 +152,10 @@ func runDim(in *DimIn) lib.Result {
 			heads[string(ks[0])] = true
 		}
 	}
-	coq := "CDim " + lib.List(opsC) + " " + lib.List(keysC) + " " + lib.List(ordC)
+	coq := "CDim " + lib.List(opsC) + " " + lib.List(keysC) + " " + lib.List(rereadC) + " " + lib.List(ordC)
 	return lib.Result{Coq: coq, NonTrivial: len(dims) >= 2 && len(heads) >= 2,
 		Feat: map[string]interface{}{"kind": "dim", "dimensions": len(dims), "max_len": maxLen, "deletes": dels,
-			"orders": len(in.Orders), "distinct_heads": len(heads), "largest_head_at": largestAt}}
+			"orders": len(in.Orders), "distinct_heads": len(heads), "largest_head_at": largestAt, "max_key_len": maxKey}}
 }
 
 // ---------- storage level ----------
@@ -178,6 +192,7 @@ func runStore(in *StoreIn) (res lib.Result) {
 	if err != nil {
 		return lib.Result{Crash: "storage.New: " + err.Error()}
 	}
+	s.VerifWrapCaches(nil)
 	defer func() { s.Close() }()
 	defer func() {
 		if r := recover(); r != nil {
@@ -188,7 +203,7 @@ func runStore(in *StoreIn) (res lib.Result) {
 	var opsC []string
 	nput, ndel, nret, reingest := 0, 0, 0, 0
 	retained := false
-	nrestart := 0
+	nrestart, nevict, maxSeriesKey := 0, 0, 0
 	for _, o := range in.Ops {
 		if o.IsRestart {
 			if err := s.Close(); err != nil {
@@ -198,8 +213,17 @@ func runStore(in *StoreIn) (res lib.Result) {
 			if err != nil {
 				return lib.Result{Crash: "storage.New after Close: " + err.Error()}
 			}
+			s.VerifWrapCaches(nil)
 			opsC = append(opsC, "SRestart")
 			nrestart++
+			continue
+		}
+		if o.IsEvict {
+			if nput > 0 {
+				s.VerifEvict("dimensions", 1.0)
+			}
+			opsC = append(opsC, "SEvict")
+			nevict++
 			continue
 		}
 		if o.IsRetain {
@@ -221,6 +245,9 @@ func runStore(in *StoreIn) (res lib.Result) {
 			continue
 		}
 		k, _ := storage.ParseKey(o.Put)
+		if n := len(k.Normalized()); n > maxSeriesKey {
+			maxSeriesKey = n
+		}
 		t := tree.New()
 		t.Insert([]byte(o.Stack), o.Count)
 		unix := int64(baseUnix) + int64(o.Era)*1000000 + int64(o.Slot)*10
@@ -325,7 +352,7 @@ func runStore(in *StoreIn) (res lib.Result) {
 		}
 	}
 	return lib.Result{Coq: coq, NonTrivial: nput >= 3 && maxTags >= 2,
-		Feat: map[string]interface{}{"kind": "store", "puts": nput, "deletes": ndel, "retention_passes": nret, "restarts": nrestart, "hidden_apps": len(in.Hide),
+		Feat: map[string]interface{}{"kind": "store", "puts": nput, "deletes": ndel, "retention_passes": nret, "restarts": nrestart, "evictions": nevict, "max_series_key_len": maxSeriesKey, "hidden_apps": len(in.Hide),
 			"old_era_puts_after_retention": reingest, "selectors": len(in.Selectors),
 			"max_selector_tags": maxTags, "special_value_chars": special}}
 }
@@ -896,8 +923,115 @@ func genStoreHuge(r *rand.Rand) Input {
 	return Input{Store: in}
 }
 
+// long tag values of the kind the property names (':' '/' '.'): URLs, host:port, dotted names
+var longVals = []string{
+	"http://service.internal.example.com:8080/api/v1/profiles/upload",
+	"https://eu-central-1.compute.example.org/region/zone-b/instance/0123456789",
+	"node-17.rack-4.dc-2.prod.example.net:9090",
+	"com.example.profiling.pipeline.ingest.worker.Main",
+	"/var/lib/service/releases/2021.04.01-rc3/bin/server",
+}
+
+// series whose normalized key is 100-300 bytes long, with short siblings sharing the application or a tag value;
+// the dimensions go to disk and come back (restart or eviction of the dimensions cache) before the queries, and
+// more series are ingested afterwards
+func genStoreLong(r *rand.Rand) Input {
+	apps := []string{lib.Pick(r, []string{"svc", "app", "frontend.web"}), lib.Pick(r, []string{"other", "b", "zz"})}
+	lkeys := []string{"url", "host", "class", "path"}
+	var pool []series
+	nl := lib.Range(r, 1, 3)
+	for i := 0; i < nl; i++ {
+		s := series{app: apps[0], tags: map[string]string{"zone": lib.Pick(r, []string{"a", "b"})}}
+		nt := lib.Range(r, 2, 4)
+		for _, k := range lkeys[:nt] {
+			s.tags[k] = lib.Pick(r, longVals)
+		}
+		if lib.Chance(r, 0.3) { // push some keys beyond 255 bytes
+			s.tags["extra"] = lib.Pick(r, longVals) + "/" + lib.Pick(r, longVals)
+		}
+		pool = append(pool, s)
+	}
+	// short siblings: same application, same zone; another application sharing zone and one long value
+	pool = append(pool, series{app: apps[0], tags: map[string]string{"zone": "a"}})
+	pool = append(pool, series{app: apps[0], tags: map[string]string{"zone": "b", "id": "1"}})
+	pool = append(pool, series{app: apps[1], tags: map[string]string{"zone": "a"}})
+	pool = append(pool, series{app: apps[1], tags: map[string]string{"zone": "b", "url": pool[0].tags["url"]}})
+	in := &StoreIn{}
+	half := len(pool) - 2
+	put := func(j int) {
+		in.Ops = append(in.Ops, SOp{Put: pool[j].render(r, false), Stack: fmt.Sprintf("s%d", j), Count: uint64(lib.Range(r, 1, 5)), Slot: lib.Range(r, 0, 30)})
+	}
+	for _, j := range r.Perm(half) {
+		put(j)
+	}
+	cycle := func() {
+		if lib.Chance(r, 0.5) {
+			in.Ops = append(in.Ops, SOp{IsRestart: true})
+		} else {
+			in.Ops = append(in.Ops, SOp{IsEvict: true})
+		}
+	}
+	cycle()
+	for j := half; j < len(pool); j++ { // ingests after the dimensions came back from disk
+		put(j)
+	}
+	put(r.Intn(half))
+	if lib.Chance(r, 0.5) {
+		cycle()
+	}
+	q := func(a string, kv ...string) string {
+		t := series{app: a, tags: map[string]string{}}
+		for i := 0; i+1 < len(kv); i += 2 {
+			t.tags[kv[i]] = kv[i+1]
+		}
+		return t.render(r, false)
+	}
+	in.Selectors = []string{q(apps[0]), q(apps[1]), q(apps[0], "zone", "a"), q(apps[0], "zone", "b"), q(apps[1], "zone", "a"), q(apps[1], "zone", "b"),
+		q(apps[0], "url", pool[0].tags["url"]), q(apps[1], "url", pool[0].tags["url"]), pool[0].render(r, false)}
+	in.ValueKeys = []string{"zone", "url", "host"}
+	in.DimNames = []string{"__name__:" + apps[0], "__name__:" + apps[1], "zone:a", "zone:b", "url:" + pool[0].tags["url"]}
+	return Input{Store: in}
+}
+
+// dimensions whose keys are 100-300 bytes long (lengths around 127/128 and 255/256 included)
+func genDimLong(r *rand.Rand) Input {
+	nu := lib.Range(r, 3, 8)
+	univ := make([]string, nu)
+	for i := range univ {
+		n := lib.Pick(r, []int{100, 126, 127, 128, 129, 200, 254, 255, 256, 257, 300})
+		if lib.Chance(r, 0.3) {
+			n = lib.Range(r, 100, 300)
+		}
+		b := []byte(fmt.Sprintf("app{url=%s,n=%d", lib.Pick(r, longVals), i))
+		for len(b) < n-1 {
+			b = append(b, lib.Pick(r, []byte("abc./:")))
+		}
+		univ[i] = string(b[:n-1]) + "}"
+	}
+	nd := lib.Range(r, 1, 3)
+	d := &DimIn{}
+	for j := 0; j < nd; j++ {
+		ops := []DOp{}
+		for _, i := range r.Perm(nu) {
+			if lib.Chance(r, 0.6) {
+				ops = append(ops, DOp{Key: univ[i]})
+			}
+		}
+		if len(ops) == 0 {
+			ops = append(ops, DOp{Key: univ[0]})
+		}
+		d.Ops = append(d.Ops, ops)
+	}
+	d.Orders = perms(nd)
+	return Input{Dim: d}
+}
+
 func gen(r *rand.Rand, idx int, tier string) Input {
 	switch {
+	case idx%40 == 4:
+		return genStoreLong(r)
+	case idx%40 == 6:
+		return genDimLong(r)
 	case idx%400 == 12:
 		return genStoreHuge(r)
 	case idx%20 == 0:
